@@ -362,14 +362,18 @@ RespInfo(sp) ==
 (***************************************************************************)
 \* C14: every value reported for a listed sensor was decoded from bytes that were actually fetched
 NeedsBytes(e) == IF e.ty = "EnumBitmap22" THEN 2 ELSE Size(e.ty)
+\* no answer of this call holds the registers the definition names
+Outside(sp, e) ==
+    NeedsBytes(e) > 0 /\ ~(Holding(sp, e.addr, NeedsBytes(e)) # {} /\ (e.ty = "EnumBitmap22" => Holding(sp, e.addrL, 2) # {}))
 WindowOf(sp, t, k) ==
     LET e == Tables[t][k] IN
     IF ~TabLast[t][k] \/ ~Has(sp, e.id) \/ NeedsBytes(e) = 0 THEN {}
-    ELSE IF Holding(sp, e.addr, NeedsBytes(e)) # {}
-            /\ (e.ty = "EnumBitmap22" => Holding(sp, e.addrL, 2) # {}) THEN {}
+    ELSE IF ~Outside(sp, e) THEN {}
     ELSE {"C14.Window:" \o e.id}
 JudgeWindow(sp) ==
-    IF ~sp.modbus \/ ~sp.ok \/ sp.single THEN {}
+    IF ~sp.modbus \/ ~sp.ok THEN {}
+    \* a single read reports one value: the answers of this call must hold that sensor's registers
+    ELSE IF sp.single THEN (IF sp.entry = 0 THEN {} ELSE WindowOf(sp, sp.tab, sp.entry))
     ELSE LET tab == Tables[sp.tab]
              ids == {tab[k].id : k \in 1..Len(tab)} IN
          UNION {WindowOf(sp, sp.tab, k) : k \in 1..Len(tab)}
@@ -387,7 +391,7 @@ JudgeTouch(sp) ==
     ELSE LET tab == IF sp.tab = 0 THEN <<>> ELSE Tables[sp.tab]
              Owner(t) == {k \in 1..Len(tab) : tab[k].size > 0 /\ tab[k].addr <= t.a /\ t.a < tab[k].addr + (tab[k].size + 1) \div 2}
              \* owners whose declared registers already fail C14.Window: the same defect, reported there under the sensor's id
-             Reported(t) == \E k \in Owner(t) : WindowOf(sp, sp.tab, k) # {} IN
+             Reported(t) == \E k \in Owner(t) : Outside(sp, tab[k]) IN
          UNION {IF Reported(sp.short[i]) THEN {}
                 ELSE IF Owner(sp.short[i]) = {} THEN {"C14.ReadPastEnd:" \o ToString(sp.short[i].a)}
                 ELSE {"C14.ReadPastEnd:" \o tab[CHOOSE k \in Owner(sp.short[i]) : TRUE].id} : i \in 1..Len(sp.short)}
